@@ -106,7 +106,7 @@ theorem tokenize_word (w : Py.Str) (hne : w ≠ []) (hw : WordChars w) : tokeniz
 /-! ### names -/
 
 theorem delim_cases (c : Char) (h : isDelim c = true) :
-    c = ' ' ∨ c = '\t' ∨ c = '\n' ∨ c = '\x0b' ∨ c = '\x0c' ∨ c = '\r' ∨ c = '*' ∨ c = ',' ∨ c = '(' ∨ c = ')' ∨ c = '?' ∨ c = '=' ∨ c = quote := by
+    c = ' ' ∨ c = '\t' ∨ c = '\n' ∨ c = '\x0b' ∨ c = '\x0c' ∨ c = '\r' ∨ c = '*' ∨ c = ',' ∨ c = '(' ∨ c = ')' ∨ c = '?' ∨ c = '=' ∨ c = ';' ∨ c = quote := by
   simp only [isDelim, sqlSpace, Bool.or_eq_true, beq_iff_eq] at h
   rcases h with (h | h) | h
   · rcases h with ((((h | h) | h) | h) | h) | h <;> simp [h]
@@ -117,7 +117,8 @@ theorem delim_cases (c : Char) (h : isDelim c = true) :
     by_cases h4 : c = ')'; · simp [h4]
     by_cases h5 : c = '?'; · simp [h5]
     by_cases h6 : c = '='; · simp [h6]
-    simp [h1, h2, h3, h4, h5, h6] at h
+    by_cases h7 : c = ';'; · simp [h7]
+    simp [h1, h2, h3, h4, h5, h6, h7] at h
   · simp [h]
 
 theorem identChar_not_delim (c : Char) (h : isIdentChar c = true) : isDelim c = false := by
@@ -125,7 +126,7 @@ theorem identChar_not_delim (c : Char) (h : isIdentChar c = true) : isDelim c = 
   | false => rfl
   | true =>
     exfalso
-    rcases delim_cases c hd with h | h | h | h | h | h | h | h | h | h | h | h | h <;> subst h <;> revert h <;> decide
+    rcases delim_cases c hd with h | h | h | h | h | h | h | h | h | h | h | h | h | h <;> subst h <;> revert h <;> decide
 
 theorem identChar_not_pyspace (c : Char) (h : isIdentChar c = true) : Py.isSpace c = false := by
   cases hd : Py.isSpace c with
